@@ -2,10 +2,12 @@
 # Builds the verification tooling from files on disk only (offline).
 set -e
 export GOFLAGS=-mod=mod GOPROXY=off GOSUMDB=off GOTOOLCHAIN=local GOWORK=off
-cd /verif
+V=${VERIF_DIR:-/verif}
+cd $V
 mkdir -p bin evidence replays
-(cd sim/simgen && go1.26.8 build -o /verif/bin/simgen .)
-(cd cmd/check && go build -o /verif/bin/check .)
+(cd sim/simgen && go1.26.8 build -o $V/bin/simgen .)
+(cd cmd/check && go build -o $V/bin/check .)
 # warm the go1.26.8 build cache (std + harness deps), with and without the race detector
-/verif/bin/check C08 --warm >/dev/null 2>&1 || true
+$V/bin/check C08 --warm >/dev/null 2>&1 || true
+$V/bin/check C19 --warm >/dev/null 2>&1 || true
 echo "setup ok"
